@@ -412,6 +412,32 @@ def write_baseline():
     print("baseline written:", sum(len(v) for v in out.values()), "obligations")
 
 
+def proof_tier_only():
+    """development aid: run every proof-tier task and every frames check once on the current tree and
+    report what the verdict policy would flag (used to measure false alarms on behaviour-preserving refactors)"""
+    from contracts.property_map import PYVC_MODULES
+    from pyvc import frames
+    from pyvc.run import run_modules
+
+    baseline = json.load(open(BASELINE)) if os.path.exists(BASELINE) else {}
+    recs = run_modules(PYVC_MODULES, jobs=12) + frames.run(list(frames.CHECKS), "-")
+    alarms, undecided, n = [], [], 0
+    for r in recs:
+        if r["status"] in ("undecided", "crash"):
+            undecided.append(f"{r['task']}: {r.get('reason', '')[-200:]}")
+        for o in r["obligations"]:
+            n += 1
+            if o["status"] == "proved":
+                continue
+            was = baseline.get(r["task"], {}).get(o["name"]) == "proved"
+            if o["status"] == "refuted" or was:
+                alarms.append(f"{o['status']:8s} {r['task']} :: {o['name']} (line {o.get('lineno')})")
+            else:
+                undecided.append(f"{o['name']}: {o['status']}")
+    print(json.dumps({"obligations": n, "alarms": alarms[:60], "n_alarms": len(alarms), "undecided": undecided[:30], "n_undecided": len(undecided)}, indent=1))
+    return 1 if alarms else 0
+
+
 def main():
     ap = argparse.ArgumentParser()
     ap.add_argument("prop", nargs="?")
@@ -419,12 +445,15 @@ def main():
     ap.add_argument("--replay", default=None)
     ap.add_argument("--selfcheck", action="store_true")
     ap.add_argument("--write-baseline", action="store_true")
+    ap.add_argument("--proof-tier-only", action="store_true")
     a = ap.parse_args()
     if a.selfcheck:
         sys.exit(selfcheck())
     if a.write_baseline:
         write_baseline()
         return
+    if a.proof_tier_only:
+        sys.exit(proof_tier_only())
     tier = os.environ.get("VERIF_TIER") or a.tier
     seed = int(os.environ.get("VERIF_SEED", "0"))
     if a.replay:
